@@ -11,23 +11,26 @@ def main(tier):
     c.build('plain', ['c13'])
     c.run_family('asan', 'c13', 'lookupindex', env=env, chunk=7)
     # flavours: the memory-safety oracle (ASan/UBSan) rides on the smaller spaces of each tier; the largest spaces run on the
-    # plain library (value oracle only). One transition costs ~2.6 ms CPU under ASan and ~0.35 ms plain (measured).
+    # plain library (value oracle only). One transition costs ~6 ms CPU under ASan and ~1 ms plain in the 30-carrier universe.
     if quick:
-        c.run_family('asan', 'c13', 'preids', env=env)
-        machines = [('asan', 'annotator-core-noids'), ('asan', 'annotator-core-mixedids'), ('asan', 'annotator-full-mixedids'), ('plain', 'annotator-full-noids')]
+        c.run_family('plain', 'c13', 'preids', env=env)
+        machines = [('asan', 'annotator-full-noids'), ('asan', 'annotator-full-mixedids'), ('plain', 'annotator-core-noids'), ('plain', 'annotator-core-mixedids')]
     else:
         c.run_family('plain', 'c13', 'preids', env=env)
-        machines = [('plain', 'annotator-core-noids'), ('plain', 'annotator-core-mixedids'), ('plain', 'annotator-full-mixedids'), ('asan', 'annotator-full-noids')]
+        machines = [('plain', 'annotator-core-noids'), ('plain', 'annotator-core-mixedids'), ('plain', 'annotator-full-mixedids'), ('plain', 'annotator-full-noids')]
+        env_q = dict(env, VERIF_TIER='quick')
+        for m in ('annotator-full-noids', 'annotator-full-mixedids'):
+            c.run_family('asan', 'c13', m, env=env_q, per_case_timeout=3000, nsamples=0)  # depth 2 under ASan/UBSan (memory-safety oracle)
     for fl, m in machines:
         c.run_family(fl, 'c13', m, env=env, per_case_timeout=3000, nsamples=1)
     states = c.counters.get('states', 0)
     transitions = c.counters.get('transitions', 0)
     return c.finish(
-        rule='machines: breadth-first search over Annotator histories with the implementation as transition relation; full alphabet = 123 operations (16 id carriers x 4 menu ids '
-             'incl. the next automatic id, add/remove entities, destroy, setModel x3, assignAllIds() / (m0|m1|null), assignIds x 15 types, assignId x 25 items, clearAllIds x4), '
-             'core alphabet = 38; depth: quick full/no-ids 3, full/mixed-ids 2, core 3; thorough full 3, core 4; states de-duplicated on (both models incl. all ids, which model the annotator '
+        rule='machines: breadth-first search over Annotator histories with the implementation as transition relation; full alphabet = 157 operations (16 id carriers x 4 menu ids + 11 carriers below the imported component x 2 menu ids, '
+             'incl. the next automatic id, add/remove entities, destroy, setModel x3, assignAllIds() / (m0|m1|null), assignIds x 15 types, assignId x 37 items, clearAllIds x4), '
+             'core alphabet = 44; depth: quick full 2, core 3; thorough full 3, core 4 (both starts each); states de-duplicated on (both models incl. all ids, which model the annotator '
              'holds, edited-flag, annotator counter + cache + hash read through a mirrored layout); lookups and printModel(m, true) are observations in every reached state. '
-             'preids: every placement of <= %d menu ids on the 19 carriers x 3 backgrounds x 36 assign* calls on a fresh annotator; lookupindex: 19 carriers x {0,1,2 carriers with the id} x '
+             'preids: every placement of <= %d menu ids on the 30 carriers x 3 backgrounds (2 placed ids: id-less background only) x 47 assign* calls on a fresh annotator (single-item assignments: item()/typed getters only for ids listed once); lookupindex: 30 carriers x {0,1,2 carriers with the id} x '
              'index in {count, count+1} x 14 getters (with exactly one carrier, where every call aborts: item() for all carriers, all getters for one carrier). distinct_nontrivial = transitions + cases judged by the oracle' % (1 if quick else 2),
         assumptions=[
             'reference = independent traversal through public getters (model, encapsulation, units, unit children, import sources, components, component_refs, variables, mapping and connection ids, resets, test/reset values)',
@@ -38,8 +41,8 @@ def main(tier):
             'clearAllIds(null model): whether the annotator forgets or keeps its model is not part of the statement; the reference follows the implementation',
             'ids given to objects outside the annotator\'s model by a failing assignId are counted, not judged; changing an EXISTING id of such an object is judged',
             'the annotator\'s private state (AnnotatorImpl is defined in annotator.cpp) is read through a mirrored struct verified by a start-up probe; it feeds only the de-duplication key and the adversarial "next automatic id" menu entry',
-            'the universe is built through the API (no modelgen exists): 3 components (one encapsulated child, one imported), 2 variables with one equivalence, local + imported units, 1 unit child, 1 reset, 1 shared import source; second model for foreign items',
+            'the universe is built through the API (no modelgen exists): 5 components (one encapsulated child, one imported with a LOCAL child component that has a variable, a reset, an equivalence and a nested child), 4 variables with two equivalences, local + imported units, 1 unit child, 1 reset, 1 shared import source; second model for foreign items',
         ],
         extra_cov={'states': int(states), 'transitions': int(transitions), 'traces_validated_against_impl': int(transitions),
-                   'machine_depths': {'annotator-full-noids': 3, 'annotator-full-mixedids': 2 if quick else 3, 'annotator-core-noids': 3 if quick else 4, 'annotator-core-mixedids': 3 if quick else 4},
+                   'machine_depths': {'annotator-full-noids': 2 if quick else 3, 'annotator-full-mixedids': 2 if quick else 3, 'annotator-core-noids': 3 if quick else 4, 'annotator-core-mixedids': 3 if quick else 4},
                    'note_on_counters': 'counters are summed over the four machines (max_depth is the sum of their depths)'})
